@@ -170,6 +170,23 @@ func (w *world) exec(tx *types.Transaction, signers []common.Address) (crossHash
 	return
 }
 
+// preExec runs one transaction the way the node pre-executes it: its own transaction cache over the block overlay,
+// preExec flag set, and the cache is dropped afterwards whatever the result.
+func (w *world) preExec(tx *types.Transaction, signers []common.Address) error {
+	tx.SignedAddr = signers
+	if len(signers) == 0 {
+		tx.SignedAddr = []common.Address{{0xee, 0xee}}
+	}
+	cache := storage.NewCacheDB(w.overlay)
+	inv := tx.Payload.(*payload.InvokeCode)
+	ns, err := native.NewNativeService(cache, tx, 1600000000+w.height, w.height, common.Uint256{}, 0, inv.Code, true)
+	if err != nil {
+		return err
+	}
+	_, err = ns.Invoke()
+	return err
+}
+
 // view returns a native service for reading the committed state.
 func (w *world) view() *native.NativeService {
 	w.cache.Reset()
